@@ -138,6 +138,26 @@ def generate(seed, tier):
         cases.append({"id": f"pos-{cs}", "kind": "positive", "ast": prog.to_json(), "params": K.frac_enc(params), "inits": K.frac_enc(inits),
                       "goals": goals, "N": 3 if cont else 5, "styles": styles, "style_seed": cs % 1000, "rename": rename,
                       "features": feats, "text": program_str(prog), "timeout": TIMEOUT[tier] * 2})
+    # designed: comparisons of a finitely valued variable with a NON-INTEGER value it can take, all comparison operators, spelled once
+    # as a fraction and once as a decimal (x == 1/2 vs x == 0.5): the decimal spelling must select the same value
+    from ..lang.parser import parse_program
+    for j in range(3 if tier == "quick" else 40):
+        cs = K.harness_seed(seed, ID + "-decimal-cond", j)
+        rng = random.Random(cs)
+        vals = rng.choice([["1/2", "2", "3/2"], ["1/4", "1", "3/4"], ["-1/2", "1/2", "5/2"], ["1/5", "1/2"]])
+        pr = f"1/{len(vals)}"
+        ch = " ".join(f"{v} {{{pr}}}" for v in vals[:-1]) + f" {vals[-1]}"
+        a, b = rng.sample(vals, 2)
+        cop1, cop2 = rng.choice(["==", "<=", ">="]), rng.choice(["<=", ">=", "==", "<", ">"])
+        guard = rng.choice(["true", "true", f"x >= {min(vals, key=lambda t: eval(t))}"])
+        text = (f"x = {vals[0]}\ny = 0\nz = 0\nwhile {guard}:\n    x = {ch}\n    if x {cop1} {a}:\n        y = y + 1\n    end\n"
+                f"    if x {cop2} {b} && x {cop1} {a}:\n        z = z + 2\n    elif x == {b}:\n        z = z - 1\n    end\nend\n")
+        from ..lang.ast import fold_program
+        prog = fold_program(parse_program(text))   # 1/2 as one rational literal, so that the decimal style can spell it 0.5
+        cases.append({"id": f"pos-deccond-{cs}", "kind": "positive", "ast": prog.to_json(), "params": K.frac_enc({}), "inits": K.frac_enc({}),
+                      "goals": [{"y": 1}, {"z": 1}, {"x": 1, "z": 1}], "N": 4, "styles": [{}, {"decimals": True}, {"decimals": True, "parens": "full", "spaces": False}],
+                      "style_seed": cs % 1000, "rename": None, "features": ["designed:decimal-literal-equal-to-a-finite-value-in-condition"],
+                      "text": program_str(prog), "timeout": TIMEOUT[tier] * 2})
     from ..gen import text_mutations as TM
     for j in range(NNEG[tier]):
         cs = K.harness_seed(seed, ID + "-neg", j)
